@@ -125,6 +125,7 @@ def build_pupil_wavefront(case):
         p = lentil.Pupil(amplitude=gen.relayout(pl["amp"].copy(), lay), opd=gen.relayout(pl["opd"].copy(), lay),
                          mask=None if mask is None else gen.relayout(mask, lay),
                          pixelscale=cm.as_ps(case["dx"]), focal_length=pl["f"])
+        p, _variant = cm.derive_obj(p, shape[0] + 3 * shape[1] + int(pl["amp"].size))     # constructed / copy / deepcopy / pickle
         w = w * p
         model = model * pm.phasor(shape, pl["amp"], pl["opd"], pl["mask"], wl)
         z = pl["f"]
@@ -233,3 +234,45 @@ def dft(case, ctx):
         raise Violation("C02.meta.ptype", f"ptype {out2.ptype} after image->pupil")
     if out2.wavelength != wl or out2.focal_length != z:
         raise Violation("C02.meta.wavelength", "wavelength/focal length changed in image->pupil leg")
+
+
+# --- pupils of more than a million samples ---------------------------------------------------------------------
+
+@st.composite
+def mega_case(draw, tier="quick"):
+    shape = draw(gen.mega_shape())
+    os_ = draw(st.integers(1, 2))
+    out_shape = [draw(st.integers(2, 5)), draw(st.integers(2, 5))]
+    q = (draw(gen.finite(0.1, 0.9)), draw(gen.finite(0.1, 0.9)))          # alpha * n per axis
+    wl, z, dx = 1e-6, draw(gen.finite(1.0, 20.0)), draw(gen.pos_log(1e-4, 1e-2))
+    du = [q[0] / shape[0] * wl * z * os_ / dx, q[1] / shape[1] * wl * z * os_ / dx]
+    return {"shape": list(shape), "oversample": os_, "out_shape": out_shape, "wavelength": wl, "z": z, "dx": dx,
+            "du": du, "seed": draw(st.integers(0, 2**31 - 1)), "offcentre": draw(st.booleans()),
+            "masked": draw(st.booleans())}
+
+
+@hyp("C02", "mega", lambda tier: mega_case(tier),
+     "pupils of more than 2^20 samples (1030..3000 per axis, sizes of no special form, support off-centre or full) "
+     "imaged onto 2..5 x 2..5 pixels vs the Fraunhofer sum", examples=(4, 16), budget_s=(200, 800))
+def mega(case, ctx):
+    m, n = case["shape"]
+    rng = np.random.default_rng(case["seed"])
+    wl, z, os_ = case["wavelength"], case["z"], case["oversample"]
+    amp = rng.uniform(0.3, 1.0, size=(m, n))
+    opd = rng.normal(size=(m, n)) * 0.05 * wl
+    if case["offcentre"]:                      # support bounding box still above a million samples, not centred
+        amp[: m // 40] = 0
+        amp[:, : n // 50] = 0
+    mask = (amp != 0).astype(int)
+    ctx.tag("mega", "offcentre" if case["offcentre"] else "full", f"os:{os_}")
+    ctx.nontrivial_if(True)
+    with lentil_call("C02.mega", f"propagate_dft(pupil {m}x{n})"):
+        pl = lentil.Pupil(amplitude=amp.copy(), opd=opd.copy(), mask=mask.copy() if case["masked"] else None,
+                          pixelscale=case["dx"], focal_length=z)
+        out = lentil.propagate_dft(lentil.Wavefront(wl) * pl, pixelscale=tuple(case["du"]),
+                                   shape=tuple(case["out_shape"]), oversample=os_)
+        got = out.field
+    model = pm.phasor((m, n), amp, opd, mask, wl)
+    full = (case["out_shape"][0] * os_, case["out_shape"][1] * os_)
+    ref, tol, a = pm.fraunhofer(model, (case["dx"], case["dx"]), tuple(case["du"]), wl, z, os_, full)
+    cm.compare_field("C02.mega", got, ref, tol, np.ones(full, dtype=bool), what=f"pupil {m}x{n} out {full}")
